@@ -428,9 +428,9 @@ fn arm_txn(args: &Args, sink: &mut Sink, rng: &mut Rng) {
     let mut s_to = Stream::new("txn_to", REQ, "chk_txn_to", "transaction", "pb_transaction * bool");
     let mut s_of = Stream::new("txn_of", REQ, "chk_txn_of", "pb_transaction", "outcome transaction");
     let mut s_cl = Stream::new("txn_class", REQ, "chk_txn_class", "transaction", "N");
-    s_to.shard = 250;
-    s_of.shard = 250;
-    s_cl.shard = 500;
+    s_to.shard = 120;
+    s_of.shard = 120;
+    s_cl.shard = 150;
     let per = args.vol(24, 200);
     for kind in 0..15u64 {
         for i in 0..per {
